@@ -14,10 +14,10 @@ def chk(pid, engine, cat, text, note, tech, thorough=True):
     return c
 
 CHECKS = [
- chk("C20", "E1", "exploration",
-  "Generated record streams (boundary-weighted lengths, zero padding) under two generated chunk partitions plus the store's own 1024-byte reads must decode to exactly the generating list through the consumer loops the store uses, through FileMessageReader, and every generated u64 must round-trip through varint writer/reader/size. Random search with shrinking; no absence claim.",
+ chk("C20", "E1 + E4 (libFuzzer target codec_chunking)", "exploration",
+  "Generated record streams (boundary-weighted lengths, zero padding) under two generated chunk partitions plus the store's own 1024-byte reads must decode to exactly the generating list through the consumer loops the store uses, through FileMessageReader, and every generated u64 must round-trip through varint writer/reader/size. Random search with shrinking, followed by a coverage-guided libFuzzer campaign (fixed number of runs, committed seed corpus) whose target includes /repo's protobuf_utils.rs by path and carries the same round-trip oracle; no absence claim.",
   "Record bodies non-empty (no real writer emits an empty message); streams <= 256 KB; expected framing built with the repo's own write_varint64, which is itself checked against reader and size function.",
-  "property-based testing (proptest): round-trip + metamorphic (two partitions) oracle"),
+  "property-based testing (proptest) + coverage-guided fuzzing (libFuzzer through cargo-fuzz): round-trip + metamorphic (two partitions) oracle"),
  chk("C02", "E1 (L1 LogInnerManager + L2 FileStore actor chain)", "exploration",
   "Model-based: generated operation histories (append, batch replicate, delete-from + re-append, bare truncation, window reads, split-off, compaction pointers, snapshot-install pointers inside/beyond the log, flush timer, reopen) with boundary-aimed payload sizes are run against LogInnerManager and against the real FileStore actor chain; a Vec reference model is compared after every operation, after every reopen and after a final reopen + append. Random search with shrinking; holds on everything generated, no absence claim.",
   "Caller discipline of async-raft (contiguous appends, truncation above the snapshot pointer); entries at or below the newest requested pointer may be compacted at the store's discretion; real file rollover (173k+ appends) only in the thorough tier.",
@@ -99,6 +99,8 @@ CHECKS = [
 ENGINES = [
  {"name": "E1", "path": "harness/src", "serves_properties": ["C20", "C02", "C03", "C05", "C09", "C10", "C11", "C12", "C14", "C16", "C17"],
   "kind_free_text": "in-process proptest model-based / round-trip checks linked against /repo as a library (fresh actix System per phase for the file-store actor chain)"},
+ {"name": "E4", "path": "fuzzproj/fuzz/fuzz_targets/codec_chunking.rs", "serves_properties": ["C20"],
+  "kind_free_text": "cargo-fuzz / libFuzzer target (nightly, ASan) that includes /repo/src/common/protobuf_utils.rs by #[path]; bytes decoded with arbitrary::Unstructured into record lengths, padding and a chunk partition; oracle inside the target; seed corpus fuzzproj/fuzz/seeds"},
  {"name": "E5", "path": "interpose/journal.c + harness/src/c04.rs", "serves_properties": ["C04"],
   "kind_free_text": "LD_PRELOAD journal of file mutations in a recorder child; parent materialises every journal prefix and runs the real recovery code on it"},
  {"name": "E2", "path": "harness/src/node.rs", "serves_properties": ["C01", "C07", "C19"],
